@@ -160,7 +160,7 @@ def check_get_type_sim(ctx, g):
     cls = {k: repo.classes.get(f'sqlparse.sql.{v}') for k, v in (('S', 'Statement'), ('G', 'Comment'), ('I', 'Identifier'), ('L', 'IdentifierList'), ('P', 'Parenthesis'))}
     ctx.need(all(cls.values()), 'sqlparse.sql classes not found')
     leafs = {'w': (WSP, ' '), 'c': (CSG, '-- c\n'), 'sel': (DML, 'select'), 'ins': (DML, 'Insert'), 'cre': (DDL, 'create  or\nreplace'), 'with': (CTE, 'with'),
-             'kw': (KW, 'data'), 'as': (KW, 'as'), 'rec': (KW, 'recursive'), 'val': (KW, 'values'), 'x': (NAME, 'x'), '(': (PUN, '('), ')': (PUN, ')')}
+             'kw': (KW, 'data'), 'dname': (DML, 'start'), 'mat': (KW, 'materialized'), 'not': (KW, 'not'), 'as': (KW, 'as'), 'rec': (KW, 'recursive'), 'val': (KW, 'values'), 'x': (NAME, 'x'), '(': (PUN, '('), ')': (PUN, ')'), ',': (PUN, ',')}
 
     def build(shape):
         out = []
@@ -195,10 +195,19 @@ def check_get_type_sim(ctx, g):
             cases.append(('lead', pre + [first] + tail, want))
         cases.append(('lead', pre, 'UNKNOWN'))
         defs = [[ident], [ilist], ['kw', 'w', 'as', 'w', paren], [ident, 'w', 'kw', 'w', paren], ['rec', 'w', ident], [ident, 'w', cm],
-                [ident, '(', ident], ['kw', 'w', 'as', 'w', paren, '(', 'w', ident]]
+                [ident, '(', ident], ['kw', 'w', 'as', 'w', paren, '(', 'w', ident],
+                # a CTE named with a non-reserved word of the DML class (start, replace, merge, commit ...)
+                ['dname', 'w', 'as', 'w', paren], ['dname', 'w', 'as', 'w', 'mat', 'w', paren], ['dname', 'w', cm, 'as', 'w', 'not', 'w', 'mat', 'w', paren],
+                [ident, 'w', 'as', 'w', paren, ',', 'w', 'dname', 'w', 'as', 'w', paren], ['rec', 'w', 'dname', 'w', 'as', 'w', paren]]
+        # what follows the keyword must not matter: a name, AS (SELECT AS STRUCT ...), a comment and AS, a parenthesis, nothing
+        tails = [tail, ['w', 'as', 'w', ident], ['w', cm, 'w', 'as', 'w', ident], [paren], []]
+        for first, want in (('sel', 'SELECT'), ('ins', 'INSERT')):
+            for tl in tails[1:]:
+                cases.append(('lead', pre + [first] + tl, want))
         for d in defs:
             for dml, want in (('sel', 'SELECT'), ('ins', 'INSERT')):
-                cases.append(('cte', pre + ['with', 'w'] + d + ['w', dml] + tail, want))
+                for tl in (tails if not pre else tails[:2]):
+                    cases.append(('cte', pre + ['with', 'w'] + d + ['w', dml] + tl, want))
             cases.append(('cte-no-dml', pre + ['with', 'w'] + d, 'UNKNOWN'))
             cases.append(('cte-no-dml', pre + ['with', 'w'] + d + ['w', 'val', 'w', paren], 'UNKNOWN'))
         cases.append(('cte-no-dml', pre + ['with'], 'UNKNOWN'))
